@@ -45,4 +45,5 @@ def run(ctx, rep):
     rep.run(RI.rule_routines_by_evaluation, ctx, rep, "I11", conversions=False)
     rep.run(RI.rule_property_accessors_by_evaluation, ctx, rep, "I12", parts=("sites",))
     rep.run(RI.rule_class_file_named_after_the_class, ctx, rep, "I13")
+    rep.run(RI.rule_dispatch_table_by_evaluation, ctx, rep, "I14")
     rep.run(RF.rule_locals_defined, ctx, rep, "U1", packages=("gtwrap/matlab_wrapper",), min_functions=3)
